@@ -67,4 +67,4 @@ Qed.
 
 (** size of the domain this specification expects (37 handle-producing methods x 9 action classes, plus 38 receiver cells: a mutating method called through a shared reference or shared view; 9 action
     classes, inapplicable combinations omitted) *)
-Definition expected_cells : nat := 266.
+Definition expected_cells : nat := 275.
